@@ -3,5 +3,6 @@ CONSTANTS
   MaxFrags = 1
   MaxNodes = 2
   FieldPool = {"me", "pet", "name", "id", "changed", "rename", "best"}
+  Extended = {}
 INVARIANTS Lemma Emit
 CHECK_DEADLOCK FALSE
